@@ -59,6 +59,10 @@ func repoCallTree(p *an.Prog, roots ...*ssa.Function) []*ssa.Function {
 }
 
 func c13(c *an.Check) {
+	privateScalarProvenance(c)
+	privateKeyRawIsCopy(c)
+	noUseAfterScrub(c, []*ssa.Function{c.P.Func("peer", "", "DeriveKey")}, nil)
+	ed25519PrivateKeyDecodeGates(c)
 	p := c.P
 	dk := p.Func("peer", "", "DeriveKey")
 	de := p.Func("peer", "", "DeriveEd25519Key")
